@@ -122,6 +122,7 @@ type scnRun struct {
 	active     bool
 	unbounded  bool // the last pass pruned nothing: all interleavings explored
 	direct     *DirectReport
+	api        map[int32][]string
 }
 
 type infraErr struct{ msg string }
@@ -584,6 +585,17 @@ func (m *master) run(evPath, knownPath, cxdir, only string, pbOver int) int {
 		}
 		die(2, "%s", infra)
 	}
+	// API coverage: one traced execution of the default schedule per scenario
+	for _, r := range runs {
+		if r.s.Direct != nil {
+			continue
+		}
+		resp, err := workers[0].call(&Req{Scenario: r.s.Name, Dev: r.b.Dev, Items: [][]int32{{}}, Replay: true, Times: 1})
+		if err != nil || resp.Err != "" {
+			continue
+		}
+		r.api = resp.API
+	}
 	// confirm + classify violations
 	kf := loadKnown(knownPath)
 	exit := 0
@@ -893,9 +905,36 @@ func (m *master) writeEvidence(path string, runs []*scnRun, nviol int) {
 			"max_points_per_execution": r.lastStats.MaxPts, "max_threads": r.lastStats.MaxThr,
 			"determinism_reruns": r.total.Verified, "horizon_hits": r.total.Horizon,
 			"incomplete_reason": r.incomplete, "exhaustive_within_bound": ex, "all_interleavings_explored": r.unbounded, "alternatives_pruned_by_bound": r.lastStats.Pruned,
-			"violating_oracles": len(r.viol),
+			"violating_oracles":                      len(r.viol),
+			"library_api_by_thread_default_schedule": apiTable(r.api),
 		})
 	}
+	pairSet := map[string]bool{}
+	for _, r := range runs {
+		for t1, f1 := range r.api {
+			for t2, f2 := range r.api {
+				if t1 >= t2 {
+					continue
+				}
+				for _, a := range f1 {
+					for _, b := range f2 {
+						if strings.HasPrefix(a, "broadcast.") && strings.HasPrefix(b, "broadcast.") && !strings.HasPrefix(r.s.Name, "bcast") {
+							continue // internal use of Broadcast by other packages' goroutines
+						}
+						if a > b {
+							a, b = b, a
+						}
+						pairSet[a+" || "+b] = true
+					}
+				}
+			}
+		}
+	}
+	pairs := make([]string, 0, len(pairSet))
+	for p := range pairSet {
+		pairs = append(pairs, p)
+	}
+	sort.Strings(pairs)
 	distinct := int64(len(finger)) + directNontriv
 	if len(samples) == 0 {
 		samples = append(samples, "no executions")
@@ -923,14 +962,15 @@ func (m *master) writeEvidence(path string, runs []*scnRun, nviol int) {
 			"traces_validated_against_impl": evals,
 			"evaluations":                   evals,
 			"distinct_nontrivial":           distinct,
-			"rule":                          "Every execution is a run of the real (instrumented) library under the controlled scheduler; the explorer enumerates all choice sequences (thread schedules up to the preemption bound, ready-select outcomes, harness data choices, map-order deviations up to the deviation bound). states = decision nodes of the choice tree visited in the deepest completed pass; transitions = scheduling points executed in that pass; evaluations = executions over all passes; distinct_nontrivial = distinct terminal fingerprints (end reason + full harness observation log + parked set), i.e. observably different behaviours. For input enumerations: cases and cases reaching a non-degenerate branch.",
+			"rule":                          "Every execution is a run of the real (instrumented) library under the controlled scheduler; the explorer enumerates all choice sequences (thread schedules up to the preemption bound, ready-select outcomes, harness data choices, map-order deviations up to the deviation bound). states = decision nodes of the choice tree visited in the deepest completed pass; transitions = scheduling points executed in that pass; evaluations = executions over all passes; distinct_nontrivial = distinct terminal fingerprints (end reason + full harness observation log + parked set), i.e. observably different behaviours; exhaustive = every scenario completed its requested bound without hitting a cap, deadline or horizon. For input enumerations: cases and cases reaching a non-degenerate branch.",
 			"samples":                       samples,
 			"exhaustive":                    exhaustive,
 			"determinism_reruns":            verified,
 			"race_build":                    m.race,
 			"workers":                       m.nworkers,
 			"scenarios":                     per,
-			"seed_note":                     "the exploration is deterministic and exhaustive within the bounds; VERIF_SEED is recorded but not used",
+			"library_api_pairs_run_by_different_threads": pairs,
+			"seed_note": "the exploration is deterministic and exhaustive within the bounds; VERIF_SEED is recorded but not used",
 		},
 		"assumptions": []string{
 			"sequentially consistent interleavings of visible operations (sync, atomic, channel, context, timer operations and the point after every unlock); plain accesses between two points are atomic (C13 checks separately that they do not race)",
@@ -968,4 +1008,14 @@ func (m *master) summary(runs []*scnRun) {
 		fmt.Printf("%-26s %s=%d/%d execs=%d (last pass %d) nodes=%d points=%d outcomes=%d ends=%v maxpts=%d thr=%d%s\n", r.s.Name, mode, r.completed, r.b.PB, r.total.Execs, r.lastStats.Execs, r.lastStats.Nodes, r.lastStats.Points, len(r.total.Finger), r.lastStats.Ends, r.lastStats.MaxPts, r.lastStats.MaxThr, inc)
 	}
 	fmt.Printf("wall %.1fs\n", time.Since(m.start).Seconds())
+}
+
+// apiTable renders the exported library functions each thread executed in the traced default schedule.
+func apiTable(api map[int32][]string) map[string][]string {
+	out := map[string][]string{}
+	for t, fs := range api {
+		sort.Strings(fs)
+		out[fmt.Sprintf("thread%d", t)] = fs
+	}
+	return out
 }
